@@ -397,6 +397,8 @@ def project_sig(project_sig, names):
                      'cond': index_cond(ix.attrs, names)} for ix in ms.index_sigs],
             'cons': [abstract_constraint(cs, names) for cs in ms.constraint_sigs],
         }
+        if getattr(ms, 'db_table_comment', None):
+            out[names.rmodels.get(ms.model_name, ms.model_name)]['comment'] = ms.db_table_comment
     return out
 
 
@@ -416,6 +418,8 @@ def norm_sig(sig):
                            for c in (ms.get('cons') or [])]
         if ms.get('it'):
             out[mn]['it'] = [list(t) for t in ms['it']]
+        if ms.get('comment') not in (None, NONE):
+            out[mn]['comment'] = ms['comment']
     return out
 
 
@@ -436,6 +440,8 @@ def sig_equal_abstract(a, b):
             return False
         if sorted(repr(sorted(c.items())) for c in x['cons']) != \
                 sorted(repr(sorted(c.items())) for c in y['cons']):
+            return False
+        if x.get('comment') != y.get('comment'):
             return False
     return True
 
